@@ -339,7 +339,7 @@ def check_cfg_and_runner(col: Collector):
     col.floor("C05.R7", 9)
     sub = Collector("C05")
     for key, rel in SCRIPTS.items():
-        root, cmds = parse_script((REPO / rel).read_text())
+        root, cmds = parse_script(__import__('sa.core.shell_alpha', fromlist=['x']).runner_source(REPO / rel))
         check_input(sub, f"runner:{key}", rel, cmds)
     for o in sub.obs:
         col.add("C05.R7", o.construct, o.detail, o.ok,
